@@ -460,7 +460,18 @@ def h_hcb_spin(env, m, which):
     from symx import shim
     from tangelo.toolboxes.qubit_mappings.mapping_transform import fermion_to_qubit_mapping
     n = 2 * m
-    if which == "generic":
+    if which == "up-only":
+        # only spin-up operators of the TOP orbital appear (highest spin-orbital index even): the spin-down partner is absent from the
+        # operator, the register still has m orbitals
+        terms = {(): env.real("E0", -2, 2)}
+        for p, q in itertools.product(range(n - 1), repeat=2):
+            terms[((p, 1), (q, 0))] = env.real(f"h{p}{q}", -2, 2)
+        top = n - 2
+        for r, s_ in itertools.combinations(range(n - 2, -1, -1), 2):
+            terms[((top, 1), (r, 1), (r, 0), (top, 0))] = env.real(f"g{top}{r}", -2, 2)
+            break
+        H = build_fermion_op(terms)
+    elif which == "generic":
         terms = {(): env.real("E0", -2, 2)}
         for p, q in itertools.product(range(n), repeat=2):
             terms[((p, 1), (q, 0))] = env.real(f"h{p}{q}", -2, 2)
@@ -657,7 +668,7 @@ def shapes(tier, seed):
         out.append(Shape(f"hcb/m{m}", h_hcb, dict(m=m), modules=MODS))
         out.append(Shape(f"hcb4fold/m{m}", h_hcb_general, dict(m=m), modules=MODS))
         out.append(Shape(f"hcb4fold-complex/m{m}", h_hcb_general, dict(m=m, complex_ints=True), modules=MODS))
-    for which, ms in (("N", (2, 3)), ("Sz", (2, 3)), ("S2", (2, 3)), ("generic", (2,))):
+    for which, ms in (("N", (2, 3)), ("Sz", (2, 3)), ("S2", (2, 3)), ("generic", (2,)), ("up-only", (2, 3))):
         for m in ms:
             out.append(Shape(f"hcb-spin/{which}/m{m}", h_hcb_spin, dict(m=m, which=which), modules=MODS))
     out.append(Shape("comb/reject-n_electrons", h_comb_reject, {}, modules=()))
